@@ -2,6 +2,7 @@
 use crate::engine::{Check, Ctx};
 use serde_json::Value;
 
+pub mod advp;
 pub mod c01;
 pub mod c02;
 pub mod c03;
@@ -22,6 +23,9 @@ pub fn meta(prop: &str) -> PropMeta {
         "C01" => c01::META,
         "C02" => c02::META,
         "C03" => c03::META,
+        "C06" => advp::META_C06,
+        "C07" => advp::META_C07,
+        "C08" => advp::META_C08,
         "C09" => c09::META,
         "C14" => c14::META,
         "C16" => c16::META,
@@ -32,7 +36,7 @@ pub fn meta(prop: &str) -> PropMeta {
 }
 
 pub fn known(prop: &str) -> bool {
-    matches!(prop, "C01" | "C02" | "C03" | "C09" | "C14" | "C16" | "C17" | "C18")
+    matches!(prop, "C01" | "C02" | "C03" | "C06" | "C07" | "C08" | "C09" | "C14" | "C16" | "C17" | "C18")
 }
 
 pub fn run(ctx: &mut Ctx) {
@@ -40,6 +44,9 @@ pub fn run(ctx: &mut Ctx) {
         "C01" => c01::run(ctx),
         "C02" => c02::run(ctx),
         "C03" => c03::run(ctx),
+        "C06" => advp::run_c06(ctx),
+        "C07" => advp::run_c07(ctx),
+        "C08" => advp::run_c08(ctx),
         "C09" => c09::run(ctx),
         "C14" => c14::run(ctx),
         "C16" => c16::run(ctx),
@@ -55,6 +62,7 @@ pub fn replay(ctx: &mut Ctx, stage: &str, case: &Value) -> Check {
         "C01" => c01::replay(ctx, stage, case),
         "C02" => c02::replay(ctx, stage, case),
         "C03" => c03::replay(ctx, stage, case),
+        "C06" | "C07" | "C08" => advp::replay(ctx, stage, case),
         "C09" => c09::replay(ctx, stage, case),
         "C14" => c14::replay(ctx, stage, case),
         "C16" => c16::replay(ctx, stage, case),
